@@ -602,10 +602,6 @@ func (h *clH) step() {
 		d := h.denoms[pool]
 		who := e.R.N(len(c.Accs))
 		coins := sdk.NewCoins(sdk.NewCoin(e.R.Pick(d[0], d[1], "urise"), h.amount(16)))
-		if h.poolLiq(pool).IsZero() {
-			// zero in-range liquidity: QuoDecTruncate(0) panics (defect S7) — exercised by the C01 check, not here
-			return
-		}
 		e.In("incentive %d %s %s", pool, accName(who), coinsStr(coins))
 		err, p := c.Call(func(ctx sdk.Context) error {
 			return c.App.LiquiditypoolKeeper.AllocateIncentive(ctx, pool, c.Accs[who].Addr, coins)
